@@ -131,7 +131,8 @@ pub async fn run(seed: u64, mode: &str, gap_ms: u64, out_path: &str) -> eyre::Re
                 sleep_ms(50).await;
             }
             if got < want {
-                merge(&mut result, json!({"timeout": format!("the matcher processed only {got} of {want} changes within 90 s")}));
+                let rows = node_rows(&agent).await.unwrap_or_default();
+                merge(&mut result, json!({"timeout": format!("the matcher processed only {got} of {want} changes within 90 s (node rows: {rows:?})")}));
             }
             sleep_ms(gap_ms).await;
         }
